@@ -16,6 +16,19 @@ def contribution(d, bay_i, k, apply_flags):
     ns = 3 * d['m'] * d['n']
     ref = np.zeros((ns, ns)); S = np.zeros((ns, ns)); alt = None
     h = 0.5 * sum(so.panel1.plyts) + 0.5 * sum(so.panel2.plyts)
+    if k == 1:
+        # geometric stiffness: the class puts the whole axial force Fx into the flange (documented in calc_kG0) - a beam at y = ys
+        # with pre-stress work Fx/2 * int w,x^2 dx; the base carries none
+        if so.fstack is not None:
+            ng = max(d['m'], 4) + 3
+            g, w = np.polynomial.legendre.leggauss(ng)
+            xs = (g + 1) * d['a'] / 2.; ys = np.full(ng, so.ys); ww = w * d['a'] / 2.
+            skin.calc_k0(silent=True)
+            G = energy.disp_basis(skin, xs, ys)[3:4]          # phix = -w,x (sign cancels)
+            Fx = so.Fx if so.Fx is not None else 0.
+            Kf, Sf = energy.quad_form(G, np.array([[Fx]]), ww)
+            ref += Kf; S += np.abs(Sf)
+        return dict(ref=ref, S=S, alt=None, c3_indefinite=False)
     if so.base is not None:
         hb = sum(so.bplyts)
         q = Panel(a=d['a'], b=d['b'], r=d.get('r'), m=d['m'], n=d['n'], stack=list(so.bstack), plyts=list(so.bplyts),
